@@ -12,6 +12,7 @@ RULE = ("seeded designs accepted by both strategies; IterateSATGen (random peer 
 ASSUMPTIONS = ["fake peers return only genuine models of the clauses they receive"]
 BUDGET = {"quick": 300, "thorough": 900}
 RUNS = {"quick": 2500, "thorough": 100000}
+THOROUGH_RUNS = 5000        # the thorough tier of this (expensive) check: a fixed range sized to stay within ~15 minutes
 
 
 def gen_case(rs, tier):
